@@ -26,6 +26,8 @@
                                  Sax.v prints from sax_init p (the residue and Inv are derived from C01/C03's
                                  invariant of the core fragment, proofs/SaxTyped.v); C04_prints_admitted_polarized:
                                  also the synchronous polarized mode
+     C04_prints_admitted_core    the same with init_linear derived from acceptance: premises = parses, accepted, closed,
+                                 core_src_b on the SOURCE program (C04_prints_admitted_polarized_core: both polarized modes)
    What rests on the correspondence only: that the real interpreter's prints and their order are the
    model's (suite `run`); results for programs with drop / split / multi-provider declarations; results in
    the non-polarized mode; uniqueness of the multiset. *)
@@ -33,7 +35,8 @@ From stdpp Require Import gmap strings.
 Require Import Grits.Base Grits.Forms Grits.STypes Grits.Runtime.
 Require Import Grits.spec.Sax Grits.proofs.Causality Grits.proofs.SaxRefine Grits.proofs.SaxInv Grits.proofs.C04Examples.
 Require Import Grits.Expand Grits.TcTop Grits.spec.RtTyping Grits.spec.Topo Grits.proofs.RtTheorems Grits.proofs.RtTcSyn
-               Grits.proofs.TopoLin Grits.proofs.TopoStep Grits.proofs.TopoReach Grits.proofs.AsyncSync Grits.proofs.SaxTyped.
+               Grits.proofs.TopoLin Grits.proofs.TopoStep Grits.proofs.TopoReach Grits.proofs.AsyncSync Grits.proofs.SaxTyped
+               Grits.proofs.InitAccept Grits.proofs.SaxAccept.
 
 Theorem C04_trace_causal : forall md (p : program) fuel pick r tr,
   exec_trace fuel pick md (p_types p) (p_funs p) (init_config p) [] = (r, tr) ->
@@ -121,6 +124,34 @@ Theorem C04_prints_admitted_text : forall txt, c04_premises_text txt = true ->
       (labels (res_config (exec_run fuel pick Async (p_types p') (p_funs p') (init_config p')))) C'.
 Proof. exact prints_admitted_text. Qed.
 
+(* ------------------------------------------------------------------ ... and with init_linear DERIVED from acceptance (a8:
+   DeterminismAccept.init_linear_parsed; proofs/SaxAccept.v).  Premises: the text parses, the program is
+   accepted and closed, and the computable condition core_src_b on the SOURCE program (no drop / split /
+   droppable forward, one provider name per process, no empty case).  Nothing about p' beyond
+   closedness, nothing about configurations or runs. *)
+Theorem C04_prints_admitted_core : forall txt p p',
+  parse_string txt = POk p -> typecheck p = Accept p' -> in_fragment p' -> core_src_b p = true ->
+  forall fuel pick, exists C',
+    sax_steps (p_funs p') false (sax_init p')
+      (labels (res_config (exec_run fuel pick Async (p_types p') (p_funs p') (init_config p')))) C'.
+Proof. exact prints_admitted_core_async. Qed.
+
+Theorem C04_prints_admitted_polarized_core : forall md txt p p',
+  is_np md = false ->
+  parse_string txt = POk p -> typecheck p = Accept p' -> in_fragment p' -> core_src_b p = true ->
+  forall fuel pick, exists C',
+    sax_steps (p_funs p') false (sax_init p')
+      (labels (res_config (exec_run fuel pick md (p_types p') (p_funs p') (init_config p')))) C'.
+Proof. exact prints_admitted_core. Qed.
+
+(* exactly these premises as one computable verdict on the text (driver `c04core`) *)
+Theorem C04_prints_admitted_core_text : forall txt, c04_core_text txt = true ->
+  exists p p', parse_string txt = POk p /\ typecheck p = Accept p' /\
+  forall md, is_np md = false -> forall fuel pick, exists C',
+    sax_steps (p_funs p') false (sax_init p')
+      (labels (res_config (exec_run fuel pick md (p_types p') (p_funs p') (init_config p')))) C'.
+Proof. exact prints_admitted_core_text. Qed.
+
 Theorem C04_tres_from_typing : forall D F teq, teq_laws D teq -> funs_typed D F teq ->
   forall Δ c, cfg_typed D F teq Δ c -> Topo c -> tres D c.
 Proof. exact tres_typed_topo. Qed.
@@ -181,6 +212,8 @@ Example C04_ex_accepted_linear : exists p', ex_prog = Some p' /\ linear_program 
 Proof. exact ex_accepted_linear. Qed.
 Example C04_ex_premises : c04_premises_text ex_text = true.
 Proof. vm_compute. reflexivity. Qed.
+Example C04_ex_core : c04_core_text ex_text = true.
+Proof. vm_compute. reflexivity. Qed.
 Example C04_ex_no_cids : match ex_prog with Some p' => no_cids p' | None => false end = true.
 Proof. vm_compute. reflexivity. Qed.
 Example C04_ex_checked_run : checked_labels pick0 = Some ["echoed"; "done"; "succ"; "zero"].
@@ -210,6 +243,10 @@ Print Assumptions C04_prints_admitted_partial.
 Print Assumptions C04_prints_admitted.
 Print Assumptions C04_prints_admitted_polarized.
 Print Assumptions C04_prints_admitted_text.
+Print Assumptions C04_prints_admitted_core.
+Print Assumptions C04_prints_admitted_polarized_core.
+Print Assumptions C04_prints_admitted_core_text.
+Print Assumptions C04_ex_core.
 Print Assumptions C04_tres_from_typing.
 Print Assumptions C04_core_invariant_gives_Inv.
 Print Assumptions C04_refines_sax_core.
